@@ -29,6 +29,8 @@ def configs(thorough):
     for validation in (True, False):
         for aux in (True, False):
             out.append(dict(validation=validation, aux=aux))
+    out.append(dict(validation=True, aux=True, verbose=False))
+    out.append(dict(validation=False, aux=False, verbose=False))
     return out
 
 
@@ -121,3 +123,38 @@ def run(chk):
                 raise Violation("initial loss / validation", f"{loss} {val}", "the arguments of solve")
             return "iteration 0, params = last = best = init_params, optimizer state, zero histories of length n_iter"
         chk.run("C07.R3", f"{SOLVE}:solve (initial carry)", cfg, go_init, construct="initial carry")
+
+
+    # R5: the two batch-drawing variants (jitted / with device_put for sharded observations) draw the same batches
+    chk.rule("C07.R5", "the sharding and the jitted get_batch variants advance the same generators and build the same batch", floor=2)
+    from ..solveenv import SolveEnv
+    from ..extern import OpaqueObj
+    for aux in (True, False):
+        def go(aux=aux):
+            E = SolveEnv(chk.repo)
+            ggb = E.m.env.get("_get_get_batch")
+            outs = []
+            for sh in (None, OpaqueObj('sharding')):
+                gb = ggb(sh)
+                outs.append(gb(E.data(), E.param_data() if aux else None, E.obs_data() if aux else None))
+            a, b = outs
+            for n, x, y in zip(("batch", "data", "param_data", "obs_data"), a, b):
+                if not same(_norm(x), _norm(y)):
+                    raise Violation(f"get_batch variants: {n}", str(y)[:200], str(x)[:200])
+            batch, data, pdata, odata = a
+            d0 = E.data()
+            d1, b0 = d0.get_batch()
+            if data != d1 or not same(_norm(batch.fields['temporal_batch']), _norm(b0.fields['temporal_batch'])):
+                raise Violation("get_batch: main generator", f"{data} {batch}", f"{d1} and its batch")
+            if aux:
+                p1, pb = E.param_data().get_batch()
+                o1, ob = E.obs_data().get_batch()
+                if pdata != p1 or odata != o1:
+                    raise Violation("get_batch: auxiliary generators", f"{pdata} {odata}", f"{p1} {o1}")
+                if not same(_norm(batch.fields['param_batch_dict']), _norm(pb)) or not same(_norm(batch.fields['obs_batch_dict']), _norm(ob)):
+                    raise Violation("get_batch: appended parts", str(batch)[:200], "parameter and observation batches appended")
+            else:
+                if pdata is not None or odata is not None or batch.fields['param_batch_dict'] is not None:
+                    raise Violation("get_batch: absent generators", f"{pdata} {odata}", "None")
+            return "same next batches, same advanced generators"
+        chk.run("C07.R5", f"{SOLVE}:_get_get_batch", {"aux": aux}, go, construct="get_batch variants")
